@@ -1054,6 +1054,14 @@ func main() {
 	defer r.Finish()
 	log.SetOutput(io.Discard)
 	if r.Replay != "" {
+		var sc scase
+		r.LoadReplay(&sc)
+		if sc.Leg != "" { // a case of a search leg (search.go): regenerated from its parameters
+			r.Case()
+			runSearchCase(sc).report(r, sc)
+			r.Sample(sc)
+			return
+		}
 		var c tcase
 		r.LoadReplay(&c)
 		one(r, c)
@@ -1083,6 +1091,13 @@ func main() {
 	for i := 0; i < r.Scale(6, 500); i++ {
 		one(r, randomZ(r, r.R.Range(300, 800)))
 		one(r, randomL(r, r.R.Range(300, 800)))
+	}
+	if r.Search {
+		if r.Failed() {
+			r.Note("search legs not run: the thorough generators already produced a failing input")
+		} else {
+			searchLegs(r)
+		}
 	}
 	r.Note("scores are int64 (model: Int, only compared); members are ints implementing Comparable; tower heights come from math/rand re-seeded per case")
 	r.Note("kind l respects the calling contracts of the primitives: Insert only of absent members, GetRank never with a score above the member's own")
